@@ -984,6 +984,43 @@ theorem ape_identical_zero_svd_partial (eps atol : ℝ) (heps : 0 ≤ eps) (hato
   rw [stats_zero _ (apeCore_identical_zero_svd_partial eps atol heps hatol alignFn et rp hv hsvd)
     (by rw [apeCore_length_self, hlen]; exact hn)]
 
+/-- **`ape(align[, scale], etype='translation')` of a trajectory with itself is zero under ANY optimal `svdstf`** (pass 10) — from the
+raw inputs (pairwise distinct stamps, `diff > 0`, at least two poses), all seven statistics. FULL strength on the clause that survives
+D43: no uniqueness hypothesis, so collinear positions, two distinct positions and all positions equal are included; the only
+hypothesis on `svdstf` is that it does at least as well as the identity (cost ≤ 0) on the matched positions. -/
+theorem ape_identical_zero_translation (eps atol : ℝ) (alignFn : List (Vec3 ℝ) → List (Vec3 ℝ) → Sim3 ℝ)
+    (diff : ℝ) (hdiff : 0 < diff) (rs : List ℝ) (rp : List (SE3 ℝ)) (hlen : rp.length = rs.length) (hn : 2 ≤ rs.length)
+    (hdist : ∀ (i : Nat) (hi : i < rs.length) (k : Nat) (hk : k < rs.length), k ≠ i → rs[i] ≠ rs[k])
+    (hopt : cost (alignFn (rp.map (·.t)) (rp.map (·.t))) (rp.map (·.t)) (rp.map (·.t)) ≤ 0) :
+    (ape eps atol alignFn .translation diff 0 .svd rs rp rs rp).map Stats.toList = some [0, 0, 0, 0, 0, 0, 0] := by
+  have hne : rs ≠ [] := by intro h; rw [h] at hn; simp at hn
+  have ha : associate diff 0 rs rp rs rp = some ⟨rs, rp, rs, rp⟩ := by
+    apply associate_jitter diff 0 rs rs rp rp rfl hlen hlen hne
+    · intro i hi; simpa using hdiff
+    · intro i hi k hk hki
+      have : rs[i] - rs[k] ≠ 0 := sub_ne_zero.mpr (hdist i hi k hk hki)
+      simpa using this
+  unfold ape apeErrors
+  rw [ha]
+  simp only [Option.map_some]
+  rw [stats_zero _ (apeCore_identical_zero_translation eps atol alignFn rp hopt)
+    (by rw [apeCore_length_self, hlen]; exact hn)]
+
+/-- non-vacuity of `ape_identical_zero_translation` ON COLLINEAR POSITIONS: three poses on the x-axis, `svdstf` returning the half turn
+about that axis (an optimum that is NOT the identity — the D43 situation): the hypothesis `cost ≤ 0` holds. -/
+example : cost (lineRot Vec3.zero Vec3.e0 1 0) [Vec3.zero, Vec3.e0, (Vec3.e0 : Vec3 ℝ).smul 2] [Vec3.zero, Vec3.e0, (Vec3.e0 : Vec3 ℝ).smul 2] ≤ 0 := by
+  have h := collinear_cost_invariant (Sim3one : Sim3 ℝ) ⟨SO3_valid_one, by simp [Sim3one]⟩ Vec3.zero Vec3.e0 1 0
+    (by lie_unfold; norm_num) (by norm_num) [Vec3.zero, Vec3.e0, (Vec3.e0 : Vec3 ℝ).smul 2] [Vec3.zero, Vec3.e0, (Vec3.e0 : Vec3 ℝ).smul 2]
+    (by
+      intro p hp
+      simp only [List.mem_cons, List.mem_nil_iff, or_false] at hp
+      rcases hp with rfl | rfl | rfl
+      · exact ⟨0, by ext <;> lie_unfold <;> norm_num⟩
+      · exact ⟨1, by ext <;> lie_unfold <;> norm_num⟩
+      · exact ⟨2, by ext <;> lie_unfold <;> norm_num⟩)
+  rw [Sim3_one_mul] at h
+  rw [h, cost_self_one]
+
 /-! ## alignment invariance of APE -/
 
 /-- **APE with `align` (and `scale`) is unchanged by a rigid (similarity) transform of the estimate.**
@@ -1429,6 +1466,141 @@ theorem alignOK_transport (rigid : Bool) (A S : Sim3 ℝ) (P Q : List (Vec3 ℝ)
     have he := h.unique _ (Sim3_valid_mul _ _ hT hS) (fun hr => by show T.s * S.s = 1; rw [hTr hr, hSr hr]; ring) hc
     have := Sim3Equiv_mul_right he (Sim3Inv S)
     rwa [Sim3_mul_assoc _ _ _ hT hS, Sim3_mul_inv S hS, Sim3_mul_one] at this
+
+/-- **RPE with `align` + `scale` under a similarity of the estimate needs only the SCALE of `svdstf` to be consistent** (pass 10): if the
+transforms returned at the two point sets are valid and their scales satisfy `s(S·P, Q) · s_S = s(P, Q)` — rotations and translations
+arbitrary — the RPE error lists are equal. No optimality, no uniqueness of the rotation: this is the full statement on COLLINEAR
+positions too (two distinct positions, a line), where the optimal rotation is a one-parameter family (D43) but cancels in every
+relative pose; it contains `rpeCore_left_invariant_svd` (all scales 1) and `rpeCore_align_invariant_partial` (scales related through
+the contract). Every error type, frame and distance pairing, `all`, `rpair`; all lengths. -/
+theorem rpeCore_align_invariant_of_scale (eps atol : ℝ) (alignFn : List (Vec3 ℝ) → List (Vec3 ℝ) → Sim3 ℝ) (et : EType)
+    (pm : PairMode) (dN : Nat) (delta rtol : ℝ) (all rpair : Bool) (S : Sim3 ℝ) (rp ep : List (SE3 ℝ)) (hS : Sim3.Valid S)
+    (hR : ∀ p ∈ rp, SE3.Valid p) (hE : ∀ p ∈ ep, SE3.Valid p)
+    (h1 : Sim3.Valid (alignFn (ep.map (·.t)) (rp.map (·.t))))
+    (h2 : Sim3.Valid (alignFn ((ep.map (·.t)).map (Sim3Act S)) (rp.map (·.t))))
+    (hscale : (alignFn ((ep.map (·.t)).map (Sim3Act S)) (rp.map (·.t))).s * S.s = (alignFn (ep.map (·.t)) (rp.map (·.t))).s) :
+    rpeCore eps atol alignFn et .svd pm dN delta rtol all rpair rp (ep.map (alignPose S))
+      = rpeCore eps atol alignFn et .svd pm dN delta rtol all rpair rp ep := by
+  have hP : (ep.map (alignPose S)).map (·.t) = (ep.map (·.t)).map (Sim3Act S) := by
+    rw [List.map_map, List.map_map]; rfl
+  rw [rpeCore_eq_tail, rpeCore_eq_tail]
+  simp only [transOf, hP]
+  set T1 := alignFn (ep.map (·.t)) (rp.map (·.t)) with hT1
+  set T2 := alignFn ((ep.map (·.t)).map (Sim3Act S)) (rp.map (·.t)) with hT2
+  have hU : Sim3.Valid (Sim3Mul T2 S) := Sim3_valid_mul _ _ h2 hS
+  set G : SE3 ℝ := ⟨(Sim3Mul (Sim3Mul T2 S) (Sim3Inv T1)).t, (Sim3Mul (Sim3Mul T2 S) (Sim3Inv T1)).q⟩ with hG
+  have hGv : SE3.Valid G := (Sim3_valid_mul _ _ hU (Sim3_valid_inv T1 h1)).1
+  have hmap : (ep.map (alignPose S)).map (alignPose T2) = (ep.map (alignPose T1)).map (SE3Mul G) := by
+    rw [List.map_map, List.map_map]
+    apply List.map_congr_left
+    intro e _
+    show alignPose T2 (alignPose S e) = SE3Mul G (alignPose T1 e)
+    rw [alignPose_mul T2 S e h2 hS]
+    exact alignPose_same_scale (Sim3Mul T2 S) T1 hU h1 hscale e
+  have hone : rp = rp.map (SE3Mul SE3one) := by
+    conv_lhs => rw [← List.map_id rp]
+    exact List.map_congr_left (fun r _ => (SE3_one_mul r).symm)
+  rw [hmap]
+  conv_lhs => rw [hone]
+  exact rpeTail_left eps atol et pm dN delta rtol all rpair SE3one G Spline.SE3_valid_one hGv rp (ep.map (alignPose T1)) hR
+    (fun p hp => by obtain ⟨e, he, rfl⟩ := List.mem_map.mp hp; exact alignPose_valid T1 e h1 (hE e he))
+
+/-- non-vacuity of `rpeCore_align_invariant_of_scale` with a genuine scaling on COLLINEAR (two-point) positions: `S` doubles the
+estimate, the `svdstf` stand-in returns scale 2 at the original positions and scale 1 at the doubled ones (rotations irrelevant). -/
+example : ∃ (alignFn : List (Vec3 ℝ) → List (Vec3 ℝ) → Sim3 ℝ) (S : Sim3 ℝ) (P Q : List (Vec3 ℝ)),
+    Sim3.Valid S ∧ S.s ≠ 1 ∧ Collinear P ∧ Sim3.Valid (alignFn P Q) ∧ Sim3.Valid (alignFn (P.map (Sim3Act S)) Q) ∧
+    (alignFn (P.map (Sim3Act S)) Q).s * S.s = (alignFn P Q).s := by
+  classical
+  let P0 : List (Vec3 ℝ) := [Vec3.zero, Vec3.e0]
+  let S : Sim3 ℝ := ⟨Vec3.zero, Quat.one, 2⟩
+  have hne : P0.map (Sim3Act S) ≠ P0 := by
+    intro h
+    have h0 := congrArg (fun l => (l.getD 1 Vec3.zero).x) h
+    simp only [P0, S, List.map_cons, List.getD_cons_succ, List.getD_cons_zero, Sim3Act, Quat.act, Vec3.cross, Quat.vec, Vec3.add,
+      Vec3.smul, Quat.one, Vec3.e0, Vec3.zero, k_real, Nat.cast_zero, Nat.cast_one] at h0
+    norm_num at h0
+  refine ⟨fun P _ => ⟨Vec3.zero, Quat.one, if P = P0 then 2 else 1⟩, S, P0, P0, ⟨SO3_valid_one, by norm_num [S]⟩, by norm_num [S], ?_, ?_, ?_, ?_⟩
+  · refine ⟨Vec3.zero, Vec3.e0, by lie_unfold; norm_num, ?_⟩
+    intro p hp
+    simp only [P0, List.mem_cons, List.mem_nil_iff, or_false] at hp
+    rcases hp with rfl | rfl
+    · exact ⟨0, by ext <;> lie_unfold <;> norm_num⟩
+    · exact ⟨1, by ext <;> lie_unfold <;> norm_num⟩
+  · exact ⟨SO3_valid_one, by simp⟩
+  · refine ⟨SO3_valid_one, ?_⟩
+    simp only [hne, if_false]; norm_num
+  · simp only [hne, if_false, if_true, S]; norm_num
+
+/-- **`rpe(align, scale)` under a similarity of the estimate, from the raw inputs** (any stamps / association outcome): only validity and
+scale consistency of `svdstf` at the matched positions are needed — full strength on collinear positions (see the core statement). -/
+theorem rpe_align_invariant_of_scale (eps atol : ℝ) (alignFn : List (Vec3 ℝ) → List (Vec3 ℝ) → Sim3 ℝ) (et : EType)
+    (diff off : ℝ) (pm : PairMode) (dN : Nat) (delta rtol : ℝ) (all rpair : Bool) (S : Sim3 ℝ) (hS : Sim3.Valid S)
+    (rs es : List ℝ) (rp ep : List (SE3 ℝ)) (hR : ∀ p ∈ rp, SE3.Valid p) (hE : ∀ p ∈ ep, SE3.Valid p)
+    (hc : ∀ a, associate diff off rs rp es ep = some a →
+      Sim3.Valid (alignFn (a.ep.map (·.t)) (a.rp.map (·.t))) ∧
+      Sim3.Valid (alignFn ((a.ep.map (·.t)).map (Sim3Act S)) (a.rp.map (·.t))) ∧
+      (alignFn ((a.ep.map (·.t)).map (Sim3Act S)) (a.rp.map (·.t))).s * S.s = (alignFn (a.ep.map (·.t)) (a.rp.map (·.t))).s) :
+    rpe eps atol alignFn et diff off .svd pm dN delta rtol all rpair rs rp es (ep.map (alignPose S))
+      = rpe eps atol alignFn et diff off .svd pm dN delta rtol all rpair rs rp es ep := by
+  have hmap := associate_map diff off rs es rp ep id (alignPose S)
+  simp only [List.map_id] at hmap
+  unfold rpe rpeErrors
+  rw [hmap]
+  cases h : associate diff off rs rp es ep with
+  | none => rfl
+  | some a =>
+    simp only [Option.map_some, Option.bind_some]
+    have hboth : a.rp = pick rp (assocIdx diff off rs es).1 ∧ a.ep = pick ep (assocIdx diff off rs es).2 := by
+      unfold associate at h
+      simp only [] at h
+      by_cases hc' : (assocIdx diff off rs es).1.isEmpty = true
+      · simp [hc'] at h
+      · have hc'' : (assocIdx diff off rs es).1.isEmpty = false := by simpa using hc'
+        simp only [hc'', Bool.false_eq_true, if_false, Option.some.injEq] at h
+        rw [← h]; exact ⟨rfl, rfl⟩
+    obtain ⟨hrp, hep⟩ := hboth
+    obtain ⟨h1, h2, h3⟩ := hc a h
+    rw [rpeCore_align_invariant_of_scale eps atol alignFn et pm dN delta rtol all rpair S a.rp a.ep hS
+      (fun p hp => hR p (mem_pick _ _ p (hrp ▸ hp))) (fun p hp => hE p (mem_pick _ _ p (hep ▸ hp))) h1 h2 h3]
+
+/-- **RPE of a trajectory with itself is zero with `align` + `scale` under ANY optimal `svdstf`** (pass 10): valid transform that does at
+least as well as the identity (cost ≤ 0) and at least two DISTINCT positions (with all positions equal the scale is undefined and the
+code raises). No uniqueness: collinear positions and the two-point case included — optimality fixes every position, two fixed points
+force the scale to 1, and the free rotation cancels in the relative poses. All errors vanish; all seven statistics for ≥ 2 pairs. -/
+theorem rpeCore_identical_zero_svd_of_optimal (eps atol : ℝ) (heps : 0 ≤ eps) (hatol : atol ≤ 1)
+    (alignFn : List (Vec3 ℝ) → List (Vec3 ℝ) → Sim3 ℝ) (et : EType)
+    (pm : PairMode) (dN : Nat) (delta rtol : ℝ) (all rpair : Bool) (rp : List (SE3 ℝ))
+    (hv : ∀ r ∈ rp, SE3.Valid r)
+    (hTv : Sim3.Valid (alignFn (rp.map (·.t)) (rp.map (·.t))))
+    (hopt : cost (alignFn (rp.map (·.t)) (rp.map (·.t))) (rp.map (·.t)) (rp.map (·.t)) ≤ 0)
+    (hdist : ∃ a ∈ rp, ∃ b ∈ rp, a.t ≠ b.t) (errs : List ℝ)
+    (h : rpeCore eps atol alignFn et .svd pm dN delta rtol all rpair rp rp = some errs) :
+    (∀ e ∈ errs, e = 0) ∧ (2 ≤ errs.length → (stats errs).toList = [0, 0, 0, 0, 0, 0, 0]) := by
+  set T := alignFn (rp.map (·.t)) (rp.map (·.t)) with hT
+  have hc : cost T (rp.map (·.t)) (rp.map (·.t)) = 0 := le_antisymm hopt (cost_nonneg _ _ _)
+  have hfix : ∀ r ∈ rp, Sim3Act T r.t = r.t := by
+    intro r hr
+    have hz := normSq_eq_zero _ (cost_zero_mem T (rp.map (·.t)) hc r.t (List.mem_map.mpr ⟨r, hr, rfl⟩))
+    have hx := congrArg Vec3.x hz; have hy := congrArg Vec3.y hz; have hzz := congrArg Vec3.z hz
+    simp only [Vec3.sub, Vec3.zero, k_real, Nat.cast_zero] at hx hy hzz
+    ext <;> linarith
+  obtain ⟨a, ha, b, hb, hab⟩ := hdist
+  have hs : T.s = 1 := sim3_scale_of_two_fixed T hTv a.t b.t (hfix a ha) (hfix b hb) hab
+  exact rpeCore_identical_zero_of_unit eps atol heps hatol alignFn et .svd pm dN delta rtol all rpair rp hv
+    (by simpa only [transOf] using hTv) (by simpa only [transOf] using hs) errs h
+
+/-- non-vacuity of `rpeCore_identical_zero_svd_of_optimal` in the D43 situation: the half turn about the x-axis is a VALID transform, not
+the identity, and there are two distinct positions on the line (its cost 0 on points of the axis is the `example` after
+`ape_identical_zero_translation`). -/
+example : Sim3.Valid (lineRot (Vec3.zero : Vec3 ℝ) Vec3.e0 1 0) ∧ (Vec3.zero : Vec3 ℝ) ≠ Vec3.e0 ∧
+    ¬ Sim3Equiv (lineRot (Vec3.zero : Vec3 ℝ) Vec3.e0 1 0) Sim3one := by
+  have hv : Sim3.Valid (Sim3one : Sim3 ℝ) := ⟨SO3_valid_one, by simp [Sim3one]⟩
+  refine ⟨lineRot_valid _ _ 1 0 (by lie_unfold; norm_num) (by norm_num), ?_, ?_⟩
+  · intro h
+    have := congrArg Vec3.x h
+    simp [Vec3.zero, Vec3.e0] at this
+  · have := (collinear_optimum_not_unique Sim3one hv Vec3.zero Vec3.e0 (by lie_unfold; norm_num) [] [] (by simp)).2
+    rwa [Sim3_one_mul] at this
 
 /-! ## geodesic loss -/
 
